@@ -1,8 +1,239 @@
 import AslModel.WebSocket
-namespace C11
-open AslModel.WebSocket Gen.Ws
+import AslProofs.WebSocket
+import AslProps.C15
+/-!
+# C11 — WebSocket messages arrive intact and in order; hostile frames can only close the connection
 
-theorem guid_is_rfc : guid = [50, 53, 56, 69, 65, 70, 65, 53, 45, 69, 57, 49, 52, 45, 52, 55, 68, 65,
-  45, 57, 53, 67, 65, 45, 67, 53, 65, 66, 48, 68, 67, 56, 53, 66, 49, 49] := by decide
+Property theorems only (helper lemmas: `AslProofs/WebSocket.lean`).  The specification side is
+`AslProofs/WebSocketSpec.lean` (`namespace Rfc6455`), written from RFC 6455: `Rfc6455.frame` (§5.2: FIN,
+opcode, MASK bit, the *minimal* 7 / 7+16 / 7+64-bit length in network byte order, masking key, payload),
+`Rfc6455.mask` (§5.3: octet `i` XOR key octet `i mod 4`), `Rfc6455.Msg`/`wire` (§5.4: first frame carries
+the opcode, continuations opcode 0, FIN on the last, ping/pong frames anywhere between frames).
+
+The model (`AslModel/WebSocket.lean`) is what the driver runs and what the correspondence check compares
+with the real library; its numeric constants, the opcode chain, the GUID and the response texts are
+regenerated from `src/WebSocket.cpp` on every run (`Gen/WsGen.lean`), so the first block of theorems
+breaks when one of them changes.
+-/
+namespace C11
+open AslModel.WebSocket AslProofs.WebSocket Gen.Ws
+
+/-! ## G obligations: the constants in the source are the ones RFC 6455 prescribes -/
+
+/-- FIN = 0x80, opcode = low nibble, MASK = 0x80, 7-bit length; 126 ⇒ 16-bit, 127 ⇒ 64-bit; the sender
+    switches form exactly at 126 and 65536; 64-bit lengths above 2^31 − 16 are refused; the masking loop
+    covers `len/4 + 1` words of a buffer grown by 4 bytes -/
+theorem constants_are_rfc :
+    finBit = 128 ∧ maskBit = 128 ∧ recvFinBit = 128 ∧ recvMaskBit = 128 ∧ opMask = 15 ∧ lenMask = 127 ∧
+    sendSmall = 126 ∧ sendMedium = 65536 ∧ sendCode16 = 126 ∧ sendCode64 = 127 ∧ recvCode16 = 126 ∧ recvCode64 = 127 ∧
+    recvMaxLen = 2 ^ 31 - 16 ∧ maskDiv = 4 ∧ maskExtra = 1 ∧ maskPad = 4 := by decide
+
+/-- text ↦ 1, binary ↦ 2, ping ↦ 9, pong ↦ 10, close ↦ 8 (`FrameType` values as in WebSocket.h) -/
+theorem opcodes_are_rfc :
+    opcodeOf 1 = Rfc6455.opText ∧ opcodeOf 2 = Rfc6455.opBinary ∧ opcodeOf 9 = Rfc6455.opPing ∧
+    opcodeOf 10 = Rfc6455.opPong ∧ opcodeOf 8 = Rfc6455.opClose := by decide
+
+theorem guid_is_rfc : guid = Rfc6455.guid := by decide
+
+/-! ## masking -/
+
+/-- The code's masking block — key read big-endian, `swapBytes`, XOR of `len/4 + 1` 32-bit words over a
+    buffer with 4 bytes of slack (arbitrary contents) — never leaves the buffer (`some`) and equals
+    byte-wise RFC masking, for every key (zero bytes included) and every payload length. -/
+theorem mask_wordwise_eq_bytewise (k : Rfc6455.Key) (data slack : List UInt8) (hs : 4 ≤ slack.length) :
+    maskBuffer k.value data slack = some (Rfc6455.mask k data) := maskBuffer_eq k data slack hs
+
+/-- for *any* 32-bit pattern read as a mask the loop stays inside `len + 4` bytes -/
+theorem mask_in_bounds (m : Nat) (data slack : List UInt8) (hs : 4 ≤ slack.length) :
+    (maskBuffer m data slack).isSome = true := maskBuffer_isSome m data slack hs
+
+/-- unmasking undoes masking -/
+theorem mask_involutive (k : Rfc6455.Key) (d : List UInt8) : Rfc6455.mask k (Rfc6455.mask k d) = d := mask_invol k d
+
+/-! ## sending -/
+
+/-- a server-role `send` of a non-empty payload writes exactly the unmasked RFC frame (FIN set) -/
+theorem encode_is_rfc_server (rng : Rng) (type : Nat) (p : List UInt8) (hp : p ≠ []) :
+    sendFrame false rng type p = some (Rfc6455.frame true (opcodeOf type) none p, rng) :=
+  sendFrame_server rng type p hp
+
+/-- a client-role `send` writes exactly the RFC frame masked with the key it drew from its generator —
+    also when that key is 0 or has zero bytes (the `mask != 0` shortcut is the identity) -/
+theorem encode_is_rfc_client (rng : Rng) (type : Nat) (p : List UInt8) (hp : p ≠ []) :
+    sendFrame true rng type p
+      = some (Rfc6455.frame true (opcodeOf type) (some (Rfc6455.Key.ofValue rng.get.1)) p, rng.get.2) :=
+  sendFrame_client rng type p hp
+
+/-- `send` with nothing to send writes nothing -/
+theorem send_empty_is_noop (isClient : Bool) (rng : Rng) (type : Nat) : sendFrame isClient rng type [] = some ([], rng) := by
+  simp [sendFrame]
+
+/-! ## header round trip -/
+
+/-- Every header `send` can write is read back exactly: all opcodes, both roles, every length
+    `0 ≤ len ≤ 2^31 − 16` — the 125/126 and 65535/65536 boundaries are branches of both functions —
+    and the length arrives as a non-negative `int` equal to `len`. -/
+theorem header_roundtrip (isClient : Bool) (opcode len : Nat) (hop : opcode < 16) (hlen : len ≤ 2147483632)
+    (k : Rfc6455.Key) (tail : List UInt8) :
+    ∃ b0 b1 ext, sendHeader isClient opcode len = b0 :: b1 :: ext ∧
+      parseExt b0 b1 (ext ++ (if isClient then k.bytes else []) ++ tail)
+        = .ok true opcode isClient (len : Int) (if isClient then k.value else 0) tail := by
+  obtain ⟨b1, ext, hl⟩ := lengthField_cons isClient len
+  refine ⟨_, b1, ext, by rw [sendHeader_eq isClient opcode len hop, hl], ?_⟩
+  cases isClient with
+  | false =>
+    have := parseExt_frame true opcode hop none len hlen tail b1 ext (by simpa using hl)
+    simpa [keyBytes, keyValue] using this
+  | true =>
+    have := parseExt_frame true opcode hop (some k) len hlen tail b1 ext (by simpa using hl)
+    simpa [keyBytes, keyValue] using this
+
+/-! ## receiving what a conforming peer sends -/
+
+/-- **Messages arrive intact, once, in order.**  For every list of messages, each split into any number
+    of frames (empty fragments allowed), every frame masked with any key or unmasked, ping and pong
+    frames with any payload injected before any frame and after the last message, for both roles and any
+    generator state: an application that calls `receive()` until `closed()` obtains — apart from the empty
+    results control frames produce — exactly the messages' payloads, in sending order, each once; the
+    connection ends closed and no masking loop left its buffer.
+    Size guard: the library holds a frame in an `int`-indexed array, so each frame payload is at most
+    2^31 − 16 bytes (`Fits`). -/
+theorem messages_intact (isClient : Bool) (rng : Rng) (ms : List Rfc6455.Msg) (trailing : List Rfc6455.Ctl)
+    (hfit : ∀ m ∈ ms, MsgFits m) (hctl : CtlsFit trailing) (hne : ∀ m ∈ ms, m.payload ≠ []) :
+    let r := run { isClient := isClient, rng := rng, inp := Rfc6455.wire ms trailing }
+    r.1.filter (· ≠ []) = ms.map (·.payload) ∧ r.2.closed = true ∧ r.2.fault = false := by
+  intro r
+  obtain ⟨extra, c', h1, h2, h3, h4⟩ := receiveAll_wire ms trailing ((Rfc6455.wire ms trailing).length + 1)
+    { isClient := isClient, rng := rng, inp := Rfc6455.wire ms trailing } [] ⟨rfl, fun h => by simp at h⟩ hfit hctl rfl (by simp)
+  have hr : r = ([] ++ extra, c') := h1
+  have hall : (ms.map (·.payload)).filter (· ≠ []) = ms.map (·.payload) := by
+    apply List.filter_eq_self.mpr
+    intro p hp
+    obtain ⟨m, hm, rfl⟩ := List.mem_map.mp hp
+    simpa using hne m hm
+  rw [hr]
+  refine ⟨?_, h3, h4⟩
+  rw [← hall, ← h2]; simp
+
+/-- **Library to library.**  What a sender of either role writes for a sequence of `send` calls (text or
+    binary, any payloads; empty ones are not sent) is received by the other role as exactly the non-empty
+    payloads, in order, each once. -/
+theorem library_roundtrip (senderIsClient : Bool) (srng rrng : Rng) (msgs : List (Nat × List UInt8))
+    (hty : ∀ e ∈ msgs, e.1 = 1 ∨ e.1 = 2) (hfit : ∀ e ∈ msgs, Fits e.2) :
+    ∃ wire, sendAll senderIsClient srng msgs [] = some wire ∧
+      let r := run { isClient := !senderIsClient, rng := rrng, inp := wire }
+      r.1.filter (· ≠ []) = (msgs.map (·.2)).filter (· ≠ []) ∧ r.2.closed = true ∧ r.2.fault = false := by
+  refine ⟨_, by rw [sendAll_eq senderIsClient msgs srng [] hty, List.nil_append], ?_⟩
+  have hne : ∀ m ∈ singleMsgs senderIsClient srng msgs, m.payload ≠ [] := by
+    intro m hm
+    have : m.payload ∈ (singleMsgs senderIsClient srng msgs).map (·.payload) := List.mem_map_of_mem hm
+    rw [singleMsgs_payload] at this
+    simpa using (List.mem_filter.mp this).2
+  have := messages_intact (!senderIsClient) rrng (singleMsgs senderIsClient srng msgs) []
+    (singleMsgs_fit senderIsClient msgs srng hfit) (fun x hx => by simp at hx) hne
+  simpa [singleMsgs_payload] using this
+
+/-! ## receiving anything at all -/
+
+/-- **Hostile input can only close the connection.**  For *every* byte stream (malformed, truncated at
+    any offset, reserved opcodes, any length field), either role, any generator state: reading until
+    `closed()` terminates with the connection closed, and no masking loop (incoming frames, outgoing
+    pongs) ever touched a byte outside its buffer. -/
+theorem hostile_safe (isClient : Bool) (rng : Rng) (inp : List UInt8) :
+    let r := run { isClient := isClient, rng := rng, inp := inp }
+    r.2.closed = true ∧ r.2.fault = false :=
+  receiveAll_closes (inp.length + 1) { isClient := isClient, rng := rng, inp := inp } [] rfl (Or.inl (by simp))
+
+/-- **No negative or wrapped length.**  Whatever the header bytes are, a length that reaches
+    `buffer.resize(len)` is the declared one (7-bit, 16-bit or 64-bit big-endian field), lies in
+    `[0, 2^31 − 16]` — so `len + 4` cannot overflow an `int` — and the bytes left are a suffix of the input.
+    64-bit fields with bit 63 set, with a non-zero high word or with bit 31 of the low word set never get
+    here (they close the connection). -/
+theorem length_never_negative (b0 mlen : UInt8) (inp : List UInt8) (fin : Bool) (op : Nat) (masked : Bool)
+    (len : Int) (mask : Nat) (rest : List UInt8) (h : parseExt b0 mlen inp = .ok fin op masked len mask rest) :
+    0 ≤ len ∧ len + 4 < 2 ^ 31 ∧ rest.length ≤ inp.length ∧
+      len = (let l7 := mlen.toNat % 128
+             if l7 = 126 then (beVal (inp.take 2) : Int) else if l7 = 127 then (beVal (inp.take 8) : Int) else (l7 : Int)) := by
+  obtain ⟨h0, h1, h2, h3⟩ := parseExt_ok b0 mlen inp fin op masked len mask rest h
+  refine ⟨h0, by omega, h2, ?_⟩
+  simpa [lenMask, recvCode16, recvCode64, and127] using h3
+
+/-- a 64-bit length with the sign bit of its low word set, e.g. `82 7F 00000000 80000000` (the frame that
+    used to produce a negative array length), is refused -/
+theorem len64_low_sign_bit_refused (b0 : UInt8) (hi lo : Nat) (hhi : hi < 2 ^ 32) (hlo : 2 ^ 31 ≤ lo) (hlo' : lo < 2 ^ 32)
+    (tail : List UInt8) :
+    parseExt b0 127 (Rfc6455.net64 (hi * 2 ^ 32 + lo) ++ tail) = .close := by
+  have hbig : hi * 2 ^ 32 + lo > 2147483632 := by omega
+  have hlt : hi * 2 ^ 32 + lo < 2 ^ 64 := by
+    have : hi * 2 ^ 32 ≤ (2 ^ 32 - 1) * 2 ^ 32 := Nat.mul_le_mul_right _ (by omega)
+    omega
+  generalize hi * 2 ^ 32 + lo = v at hbig hlt
+  have hv : beVal (Rfc6455.net64 v) = v := beVal_net64 v hlt
+  have htake : (Rfc6455.net64 v ++ tail).take 8 = Rfc6455.net64 v := List.take_left' rfl
+  have h127 : ((127 : UInt8).toNat &&& lenMask) = 127 := by
+    simp only [lenMask, and127]; rfl
+  cases h : parseExt b0 127 (Rfc6455.net64 v ++ tail) with
+  | close => rfl
+  | ok fin op masked len mask rest =>
+    obtain ⟨_, h1, _, h3⟩ := parseExt_ok b0 127 _ fin op masked len mask rest h
+    simp only [h127, recvCode16, recvCode64, htake, hv] at h3
+    rw [if_pos trivial] at h3
+    omega
+
+/-! ## handshake -/
+
+/-- the value the server puts into `Sec-WebSocket-Accept` is base64(H(key ‖ GUID)) with the RFC 4648
+    alphabet and the RFC 6455 GUID, where H is the library's SHA-1 (`SHA1::hash`, model of C15) -/
+theorem accept_key_rfc_partial (key : List UInt8) :
+    acceptKey key = C15.Rfc.base64 (AslModel.Sha1.Impl.hash (key ++ Rfc6455.guid)) := by
+  unfold acceptKey
+  rw [C15.base64_rfc, guid_is_rfc]
+
+/-- the full statement: H is FIPS 180-4 SHA-1.  It follows from `accept_key_rfc_partial` once
+    `Impl.hash = Fips.sha1` (C15's `sha1_eq_spec`, validated there by the correspondence check, not yet a theorem). -/
+def accept_key_rfc_full : Prop :=
+  ∀ key, acceptKey key = C15.Rfc.base64 (AslModel.Sha1.Fips.sha1 (key ++ Rfc6455.guid))
+
+theorem accept_key_rfc_of_sha1 (h : ∀ m, AslModel.Sha1.Impl.hash m = AslModel.Sha1.Fips.sha1 m) : accept_key_rfc_full := by
+  intro key; rw [accept_key_rfc_partial, h]
+
+/-- the response is the status line and headers RFC 6455 §4.2.2 asks for
+    (`HTTP/1.1 101 Switching Protocols`, `Upgrade: websocket`, `Connection: Upgrade`, `Sec-WebSocket-Accept: `),
+    then the accept value, CRLF, optionally a protocol line, and the empty line -/
+theorem server_response_shape (key : List UInt8) (proto : Bool) :
+    ∃ post, serverResponse key proto = [
+      72, 84, 84, 80, 47, 49, 46, 49, 32, 49, 48, 49, 32, 83, 119, 105, 116, 99, 104, 105, 110, 103, 32, 80,
+      114, 111, 116, 111, 99, 111, 108, 115, 13, 10, 85, 112, 103, 114, 97, 100, 101, 58, 32, 119, 101, 98, 115, 111,
+      99, 107, 101, 116, 13, 10, 67, 111, 110, 110, 101, 99, 116, 105, 111, 110, 58, 32, 85, 112, 103, 114, 97, 100,
+      101, 13, 10, 83, 101, 99, 45, 87, 101, 98, 83, 111, 99, 107, 101, 116, 45, 65, 99, 99, 101, 112, 116, 58,
+      32] ++ acceptKey key ++ [13, 10] ++ post ∧
+      post.drop (post.length - 2) = [13, 10] := by
+  refine ⟨(if proto then responseProtocol else []) ++ [13, 10], ?_, ?_⟩
+  · have : responseHead = [
+      72, 84, 84, 80, 47, 49, 46, 49, 32, 49, 48, 49, 32, 83, 119, 105, 116, 99, 104, 105, 110, 103, 32, 80,
+      114, 111, 116, 111, 99, 111, 108, 115, 13, 10, 85, 112, 103, 114, 97, 100, 101, 58, 32, 119, 101, 98, 115, 111,
+      99, 107, 101, 116, 13, 10, 67, 111, 110, 110, 101, 99, 116, 105, 111, 110, 58, 32, 85, 112, 103, 114, 97, 100,
+      101, 13, 10, 83, 101, 99, 45, 87, 101, 98, 83, 111, 99, 107, 101, 116, 45, 65, 99, 99, 101, 112, 116, 58,
+      32] := by decide
+    simp [serverResponse, this]
+  · cases proto <;> decide
+
+/-! ## non-vacuity / sanity instances (tests, labelled as such) -/
+
+-- the RFC 6455 §5.7 examples: unmasked "Hello", masked "Hello" with key 37 fa 21 3d
+example : Rfc6455.frame true 1 none [72, 101, 108, 108, 111] = [0x81, 0x05, 0x48, 0x65, 0x6c, 0x6c, 0x6f] := by decide
+example : Rfc6455.frame true 1 (some ⟨0x37, 0xfa, 0x21, 0x3d⟩) [72, 101, 108, 108, 111]
+    = [0x81, 0x85, 0x37, 0xfa, 0x21, 0x3d, 0x7f, 0x9f, 0x4d, 0x51, 0x58] := by decide
+-- a fragmented "Hello" ("Hel" + ping + "lo") is received as one message, the ping is answered
+example : let r := run { isClient := false, rng := ⟨1, 2, 3, 4⟩,
+                         inp := [0x01, 0x03, 0x48, 0x65, 0x6c, 0x89, 0x01, 0x70, 0x80, 0x02, 0x6c, 0x6f] }
+    r.1 = [[72, 101, 108, 108, 111]] ∧ r.2.out = [0x8a, 0x01, 0x70] ∧ r.2.closed = true := by decide
+-- the hypotheses of `messages_intact` are satisfiable with a 3-fragment masked message and control frames
+example : MsgFits ⟨true, ⟨[⟨false, [1], none⟩], [1, 2], some ⟨0, 9, 0, 7⟩⟩, [⟨[⟨true, [], none⟩], [], none⟩, ⟨[], [3], none⟩]⟩ := by
+  simp [MsgFits, FragFits, CtlsFit, Fits]
+-- the frame that used to give a negative length closes the connection
+example : (run { isClient := false, rng := ⟨1, 2, 3, 4⟩, inp := [0x82, 0x7f, 0, 0, 0, 0, 0x80, 0, 0, 0] }).1 = [[]] := by decide
+-- a frame cut inside its payload is not delivered
+example : (run { isClient := false, rng := ⟨1, 2, 3, 4⟩, inp := [0x81, 0x14, 0x61, 0x62, 0x63] }).1 = [[]] := by decide
 
 end C11
